@@ -894,3 +894,12 @@ RECIPES += [
     ("C18", "break", ["C18-R2"], N2P, _REFUSAL, "    stray = ~pvmajor & pvminor\n    refused = stray.any() and stray.all()\n    if refused:\n        raise ValueError(\"`minorset`",
      "mksetpv: refusal flag that needs every DOF to be outside"),
 ]
+
+RECIPES += [
+    ("C18", "break", ["C18-R4"], N2P, _IDS, "        return np.array([[n, i] for n in np.unique(dof) for i in rg])\n", "expanddof: ids sorted and de-duplicated before the expansion"),
+    ("C18", "break", ["C18-R4"], N2P, _IDS, "        return np.array([[n, i] for n in sorted(dof.ravel()) for i in rg])\n", "expanddof: ids sorted before the expansion"),
+    ("C18", "neutral", [], N2P, _IDS, "        return np.array([[n, i] for n in dof[:, None].ravel() for i in rg])\n", "expanddof: ids through an inserted axis and ravel"),
+    ("C18", "neutral", [], LOC, _CLAMP_MAT, "    last = i.size - 1\n    pvi[pvi > last] = last\n    pv2 = i[pvi]\n", "mat_intersect: clamp written as index > size - 1 -> size - 1"),
+    ("C18", "neutral", [], LOC, _CLAMP_MAT, "    pvi[i.size <= pvi] = i.size - 1\n    pv2 = i[pvi]\n", "mat_intersect: clamp written as size <= index"),
+    ("C18", "break", ["C18-R3"], LOC, _CLAMP_MAT, "    last = i.size - 1\n    pvi[pvi > last + 1] = last\n    pv2 = i[pvi]\n", "mat_intersect: clamp condition index > size (never true)"),
+]
